@@ -193,6 +193,12 @@ class Exec:
             env = dict(p.env)
             env['@sleeps'] = p.env.get('@sleeps', []) + [ns.val]
             return [Path(p.cond, env)]
+        if isinstance(st, ast.Expr) and self.sleep_call(st.value) is not None:
+            # any other arithmetic on the delay (seconds): evaluated exactly, in nanoseconds over the reals
+            ns = self.seconds_as_ns(self.sleep_call(st.value), p)
+            env = dict(p.env)
+            env['@sleeps'] = p.env.get('@sleeps', []) + [ns]
+            return [Path(p.cond, env)]
         if isinstance(st, ast.Assign) and len(st.targets) == 1:
             v = self.expr(st.value, p)
             env = dict(p.env)
@@ -247,12 +253,47 @@ class Exec:
             return n.args[0]
         return None
 
+    @staticmethod
+    def sleep_call(e):
+        """`[await] [asyncio.]sleep(E)` -> E, else None."""
+        if isinstance(e, ast.Await):
+            e = e.value
+        if not (isinstance(e, ast.Call) and len(e.args) == 1 and not e.keywords):
+            return None
+        f = e.func
+        if (isinstance(f, ast.Name) and f.id == 'sleep') or (isinstance(f, ast.Attribute) and f.attr == 'sleep' and isinstance(f.value, ast.Name) and f.value.id == 'asyncio'):
+            return e.args[0]
+        return None
+
+    def seconds_as_ns(self, e, p):
+        """A float expression in seconds built from `float(X) / NS` (X an int of nanoseconds), numeric constants, + - and max / min:
+        its exact value in nanoseconds as a z3 real (binary floating point rounding of the real code is not modelled)."""
+        if isinstance(e, ast.BinOp) and isinstance(e.op, ast.Div) and isinstance(e.right, ast.Name) and e.right.id == 'NS' \
+                and isinstance(e.left, ast.Call) and isinstance(e.left.func, ast.Name) and e.left.func.id == 'float' and len(e.left.args) == 1:
+            x = self.expr(e.left.args[0], p)
+            self.need_int(x, p, e)
+            return z3.ToReal(x.val)
+        if isinstance(e, ast.BinOp) and isinstance(e.op, (ast.Add, ast.Sub)):
+            a, b = self.seconds_as_ns(e.left, p), self.seconds_as_ns(e.right, p)
+            return a + b if isinstance(e.op, ast.Add) else a - b
+        if isinstance(e, ast.Call) and isinstance(e.func, ast.Name) and e.func.id in ('max', 'min') and len(e.args) == 2 and not e.keywords:
+            a, b = self.seconds_as_ns(e.args[0], p), self.seconds_as_ns(e.args[1], p)
+            return z3.If(a >= b, a, b) if e.func.id == 'max' else z3.If(a <= b, a, b)
+        if isinstance(e, ast.Constant) and isinstance(e.value, (int, float)) and not isinstance(e.value, bool):
+            return z3.RealVal(repr(e.value)) * 1000000000
+        if isinstance(e, ast.Name) and e.id in FLOAT_CONSTS:
+            return z3.RealVal(repr(FLOAT_CONSTS[e.id])) * 1000000000
+        raise Unsupported("sleep argument %s" % ast.dump(e)[:80])
+
     def target(self, t):
         if isinstance(t, ast.Name):
             return t.id
         if isinstance(t, ast.Attribute) and isinstance(t.value, ast.Name) and t.value.id == 'self':
             return 'self.' + t.attr
         raise Unsupported("assignment target")
+
+
+FLOAT_CONSTS = {}   # module-level numeric constants in seconds (ZERO = 0.0 and whatever a change adds)
 
 
 def module_consts(tree):
@@ -262,6 +303,8 @@ def module_consts(tree):
             v = st.value.value
             if isinstance(v, bool):
                 continue
+            if isinstance(v, (int, float)) and st.targets[0].id != 'NS':
+                FLOAT_CONSTS[st.targets[0].id] = v
             if isinstance(v, int):
                 consts[st.targets[0].id] = v
             elif isinstance(v, float) and v == int(v):
